@@ -26,6 +26,9 @@ CHECKS = {
  "C08": dict(level="model_checking", tech="TLA+ facet spec QCache.tla + TLC-generated request/response/time/reconfiguration histories on the real library (virtual time) + TLC trace validation",
              text="What may be replayed from the cache (key = opcode/RD/CD/type/class/name case-insensitively without trailing dot; NOERROR/NXDOMAIN only, never TC; lifetime = min(max, min TTL or SOA minimum); nothing when max = 0; empty after server-set change or reinit) and the TTL-decrement rule are an explicit TLA+ spec; every request answered without transmission in every generated history must be explained by it, with every TTL seen through the record API and the legacy buffer equal to original minus whole seconds cached.",
              note="Trusted: TLC, harness, virtual clock. Early eviction is allowed (the property bounds lateness only). addrinfo TTLs are covered through the record API getter they read.", ref="4/C08"),
+ "C17": dict(level="model_checking", tech="TLA+ facet spec Cookie.tla (RFC 7873 client machine) + TLC-generated server-behaviour/time/source-address histories on the real library + TLC trace validation",
+             text="The per-server cookie state machine (client cookie constant per server and source address until rotation, latest server cookie echoed, never over TCP, cookie-less replies ignored while SUPPORTED until 120 s regression, at most three BADCOOKIE resends then TCP, unsupported servers used without cookie for 120 s) is an explicit TLA+ spec; the COOKIE option of every transmitted frame and the delivery of every reply of every generated history (all server behaviours, source changes, advances across 120 s / 1 day including whole-second instants, IPv4 and IPv6) are validated by TLC.",
+             note="Trusted: TLC, harness frame decoding (uses the library's own parser for plumbing), virtual clock and random hooks.", ref="4/C17"),
 }
 NA_REASON = "check not built yet in this round (specification planned in DESIGN.md section 4); not claimed until its machinery exists"
 
